@@ -40,15 +40,87 @@ def signature(body):
 
 
 def fn_paths(facts):
-    """{normalised path: {"sig": signature}} of every function of the crate"""
+    """{normalised path: {"sig": signature, "params": [[name, type], ..]}} of every function of the crate"""
     mir_by_norm = {facts.norm(p): b for p, b in facts.mir.items() if b.get("promoted") is None}
     out = {}
     for p, it in facts.hir.items():
         if it["defkind"] in ("Fn", "AssocFn"):
             n = facts.norm(p)
             b = mir_by_norm.get(n)
-            out[n] = {"sig": signature(b) if b is not None else None}
+            out[n] = {"sig": signature(b) if b is not None else None,
+                      "params": [[b["locals"][i]["name"], b["locals"][i]["ty"]] for i in range(1, b["arg_count"] + 1)] if b is not None else None}
     return dict(sorted(out.items()))
+
+
+# ---- reordered parameters of private functions --------------------------------------------------------------------------------------------
+def _perm_locals(n, m):
+    if isinstance(n, list):
+        return [_perm_locals(x, m) for x in n]
+    if not isinstance(n, dict):
+        return n
+    return {k: (m.get(v, v) if (k == "local" and type(v) is int) else _perm_locals(v, m)) for k, v in n.items()}
+
+
+def apply_param_order(facts):
+    """A non-public reviewed function whose parameter list is a PERMUTATION of the reviewed one (same names and types, other order) is put
+    back into the reviewed order -- parameters of the item, argument locals of its MIR body and the arguments of every call -- so that
+    positional keys keep their meaning.  Reported in the evidence."""
+    tab = known_table()
+    if not isinstance(tab, dict):
+        return {}
+    done = {}
+    for p, b in list(facts.mir.items()):
+        if b.get("promoted") is not None or b["defkind"] not in ("Fn", "AssocFn") or "Public" in str(b.get("vis")):
+            continue
+        ent = tab.get(facts.norm(p))
+        if not isinstance(ent, dict) or not ent.get("params"):
+            continue
+        ref = [tuple(x) for x in ent["params"]]
+        cur = [(b["locals"][i]["name"], b["locals"][i]["ty"]) for i in range(1, b["arg_count"] + 1)]
+        if len(ref) != len(cur) or [t for n, t in ref] == [t for n, t in cur] or sorted(ref) != sorted(cur) or len(set(cur)) != len(cur):
+            continue
+        perm = [cur.index(x) for x in ref]          # reviewed position j <- current position perm[j]
+        done[p] = perm
+        # MIR body: renumber the argument locals
+        m = {perm[j] + 1: j + 1 for j in range(len(perm))}
+        nb = _perm_locals({"blocks": b["blocks"], "debug": b.get("debug")}, m)
+        b["blocks"], b["debug"] = nb["blocks"], nb["debug"]
+        args = b["locals"][1:1 + len(perm)]
+        b["locals"][1:1 + len(perm)] = [args[perm[j]] for j in range(len(perm))]
+    if not done:
+        return {}
+    by_norm = {facts.norm(p): perm for p, perm in done.items()}
+    # MIR call sites
+    import mir
+    for p, b in facts.mir.items():
+        for bl in b["blocks"]:
+            t = bl["term"]
+            if t["k"] == "Call":
+                cp = mir.callee_path(t)
+                perm = by_norm.get(facts.norm(cp)) if cp else None
+                if perm and len(t["args"]) == len(perm):
+                    t["args"] = [t["args"][perm[j]] for j in range(len(perm))]
+    # HIR items and call sites
+    import hir as H
+    for p, it in facts.hir.items():
+        perm = by_norm.get(facts.norm(p))
+        if perm and len(it.get("params", [])) == len(perm):
+            it["params"] = [it["params"][perm[j]] for j in range(len(perm))]
+    for p, it in facts.hir.items():
+        if it.get("body") is None:
+            continue
+        for n in H.walk(it["body"]):
+            if n.get("k") == "Call":
+                f_ = H.strip(n["f"])
+                d = f_["path"].get("def") if f_.get("k") == "Path" and f_["path"].get("res") == "def" else None
+                perm = by_norm.get(facts.norm(d)) if d else None
+                if perm and len(n["args"]) == len(perm):
+                    n["args"] = [n["args"][perm[j]] for j in range(len(perm))]
+            elif n.get("k") == "MethodCall":
+                perm = by_norm.get(facts.norm(n.get("def") or "")) if n.get("def") else None
+                if perm and len(n["args"]) + 1 == len(perm) and perm[0] == 0:
+                    n["args"] = [n["args"][perm[j] - 1] for j in range(1, len(perm))]
+    return {facts.norm(p): perm for p, perm in done.items()}
 
 
 # ---- renamed private functions -----------------------------------------------------------------------------------------------------------
